@@ -303,10 +303,29 @@ func (h *handler) processUnaryRpc(
 	rpc *goatorepo.Rpc,
 ) *goatorepo.Rpc {
 	ctx, cancel, err := contextFromHeaders(clientCtx, rpc.GetHeader())
-	if err != nil {
-		log.Panic().Err(err).Msg("Server: failed to get context from headers")
-	}
 	defer cancel()
+	if err != nil {
+		// the peer chose these bytes: answer with an error, do not crash
+		log.Error().Err(err).Msg("Server: failed to get context from headers")
+		st := status.New(codes.InvalidArgument, "invalid request metadata: "+err.Error()).Proto()
+		errHeader := &goatorepo.RequestHeader{
+			Method:      rpc.Header.Method,
+			Source:      rpc.Header.Destination,
+			Destination: rpc.Header.Source,
+		}
+		if len(rpc.Header.ProxyRecord) > 1 {
+			errHeader.ProxyNext = rpc.Header.ProxyRecord[0 : len(rpc.Header.ProxyRecord)-1]
+		}
+		return &goatorepo.Rpc{
+			Id:     rpc.GetId(),
+			Header: errHeader,
+			Status: &goatorepo.ResponseStatus{
+				Code:    st.GetCode(),
+				Message: st.GetMessage(),
+			},
+			Trailer: &goatorepo.Trailer{},
+		}
+	}
 
 	var appErr error
 	fullMethod := fmt.Sprintf("/%s/%s", info.name, md.MethodName)
